@@ -118,13 +118,17 @@ func (s *tunnelServer) serve(tunnelMetadata metadata.MD) error {
 // itself is still valid for subsequent RPCs. This will be the case, for example, if the requested
 // method name is not implemented by the server.
 func (s *tunnelServer) createStream(ctx context.Context, streamID int64, frame *tunnelpb.NewStream) (bool, error) {
+	// These rejections only fail the one stream. They must not be returned
+	// before the stream ID has been validated and recorded below; otherwise
+	// later frames for the rejected stream look like frames for a stream
+	// that was never created (which aborts the whole tunnel) and a re-used
+	// ID is not detected.
+	var rejectErr error
 	if s.isClosing() {
-		return true, status.Errorf(codes.Unavailable, "server is shutting down")
-	}
-
-	if frame.ProtocolRevision != tunnelpb.ProtocolRevision_REVISION_ZERO &&
+		rejectErr = status.Errorf(codes.Unavailable, "server is shutting down")
+	} else if frame.ProtocolRevision != tunnelpb.ProtocolRevision_REVISION_ZERO &&
 		frame.ProtocolRevision != tunnelpb.ProtocolRevision_REVISION_ONE {
-		return true, status.Errorf(codes.Unavailable, "server does not support protocol revision %d", frame.ProtocolRevision)
+		rejectErr = status.Errorf(codes.Unavailable, "server does not support protocol revision %d", frame.ProtocolRevision)
 	}
 	noFlowControl := frame.ProtocolRevision == tunnelpb.ProtocolRevision_REVISION_ZERO
 
@@ -140,6 +144,10 @@ func (s *tunnelServer) createStream(ctx context.Context, streamID int64, frame *
 		return false, fmt.Errorf("cannot create stream ID %d: that ID has already been used", streamID)
 	}
 	s.lastSeen = streamID
+
+	if rejectErr != nil {
+		return true, rejectErr
+	}
 
 	if len(frame.MethodName) > 0 && frame.MethodName[0] == '/' {
 		frame.MethodName = frame.MethodName[1:]
